@@ -348,3 +348,21 @@ M('cli-suffix-off-by-one', ['C12'], CLI, "sources[i] = new_source + source[len(i
 M('cli-suffix-dropped', ['C12'], CLI, "sources[i] = id_source + source[len(id) :]", "sources[i] = id_source", ['C12.R2'])
 M('only_mq_addr-forgets-bang', ['C12'], CLI, '            addr.find(";") & 0xFFFFFFFF,\n            addr.find("!") & 0xFFFFFFFF,', '            addr.find(";") & 0xFFFFFFFF,', ['C12.R3'])
 M('parse_options-other-sep', ['C12'], F, "text, *opts = [s.strip() for s in text.split('!')]", "text, *opts = [s.strip() for s in text.split('|')]", ['C12.R3'])
+
+# --------------------------------------------------------------------------------------------------------------- C15
+
+M('imagein-logs-raw-source', ['C15'], II, """logger.info(f"Loaded {len(images)} images from {hide_uri_users_and_pwds(source.source)} for topic '{topic}'")""", """logger.info(f"Loaded {len(images)} images from {source.source} for topic '{topic}'")""", ['C15.R1'])
+M('videoreader-source-raw', ['C15'], VI, "        self.source        = hide_uri_users_and_pwds(source)", "        self.source        = source", ['C15.R1'])
+M('walker-D5a-shape', ['C15'], F, "                        cfg                                if not isinstance(cfg, dict) else", "                        cfg                                if not isinstance(cfg, FilterConfig) else", ['C15.R2', 'C15.R1'])
+M('walker-skips-tuples', ['C15'], F, "                        cfg.__class__([_(v) for v in cfg]) if isinstance(cfg, (list, tuple)) else", "                        cfg.__class__([_(v) for v in cfg]) if isinstance(cfg, list) else", ['C15.R2'])
+M('deep-walker-skips-dicts', ['C15'], UTL, "        obj                                                                    if not isinstance(obj, dict) else", "        obj                                                                    if not isinstance(obj, adict) else", ['C15.R2', 'C15.R1'])
+M('facets-D5b-shape', ['C15'], F, "        facets = hide_uri_users_and_pwds_deep({k: v for k, v in facets.items() if k not in sensitive_fields})", "        facets = {k: v for k, v in facets.items() if k not in sensitive_fields}", ['C15.R1'])
+M('bad-src-D5c-shape', ['C15'], F, "raise ValueError(f'invalid source {hide_uri_users_and_pwds(bad_src)!r}, only tcp:// or ipc:// sources allowed')", "raise ValueError(f'invalid source {bad_src!r}, only tcp:// or ipc:// sources allowed')", ['C15.R1'])
+M('videoin-meta-raw-src', ['C15'], VI, "'src': vid.source, 'src_fps': vid.fps", "'src': vid.ssource, 'src_fps': vid.fps", ['C15.R1'])
+M('videoout-logs-config-outputs', ['C15'], VO, "        default_options         = {'bgr': config.bgr, 'fps': config.fps, 'segtime': config.segtime}", "        default_options         = {'bgr': config.bgr, 'fps': config.fps, 'segtime': config.segtime}\n        logger.info(f'video outputs: {config.outputs}')", ['C15.R1'])
+M('videowriter-serve-raw', ['C15'], VO, "            logger.info(f'video serve: {hide_uri_users_and_pwds(output)}  ({self.fps:.1f} fps)')", "            logger.info(f'video serve: {output}  ({self.fps:.1f} fps)')", ['C15.R1'])
+M('presign-message-raw', ['C15'], VI, "raise ValueError(f'Failed to generate presigned URL for S3 source {self.source!r}: {hide_uri_users_and_pwds(str(e))}')", "raise ValueError(f'Failed to generate presigned URL for S3 source {self.source!r}: {e}')", ['C15.R1'])
+M('regex-pwd-stops-at-slash', ['C15'], UTL, "re_sub_uri_user_and_pwd = re.compile(r'\\b ( [a-zA-Z][a-zA-Z0-9+\\-.]* :// ) [^:@]+: [^@]* ( @ [^\\s/?#]+ )', re.VERBOSE)", "re_sub_uri_user_and_pwd = re.compile(r'\\b ( [a-zA-Z][a-zA-Z0-9+\\-.]* :// ) [^:@]+: [^@/]* ( @ [^\\s/?#]+ )', re.VERBOSE)", ['C15.R3'])
+M('regex-keeps-user', ['C15'], UTL, "re_sub_uri_user_and_pwd = re.compile(r'\\b ( [a-zA-Z][a-zA-Z0-9+\\-.]* :// ) [^:@]+: [^@]* ( @ [^\\s/?#]+ )', re.VERBOSE)", "re_sub_uri_user_and_pwd = re.compile(r'\\b ( [a-zA-Z][a-zA-Z0-9+\\-.]* :// [^:@]+: ) [^@]* ( @ [^\\s/?#]+ )', re.VERBOSE)", ['C15.R3'])
+M('regex-user-class-narrow', ['C15'], UTL, "re_sub_uri_user_and_pwd = re.compile(r'\\b ( [a-zA-Z][a-zA-Z0-9+\\-.]* :// ) [^:@]+: [^@]* ( @ [^\\s/?#]+ )', re.VERBOSE)", "re_sub_uri_user_and_pwd = re.compile(r'\\b ( [a-zA-Z][a-zA-Z0-9+\\-.]* :// ) [^:@!]+: [^@]* ( @ [^\\s/?#]+ )', re.VERBOSE)", ['C15.R3'])
+M('mask-replacement-keeps-all', ['C15'], UTL, "    return re_sub_uri_user_and_pwd.sub(r'\\g<1>****\\g<2>', text)", "    return re_sub_uri_user_and_pwd.sub(r'\\g<0>', text)", ['C15.R3'])
